@@ -1108,8 +1108,29 @@ func c08R10(c *Ctx) {
 					if culprit != nil || in2 == in || !dominatesInstr(in, in2) {
 						return
 					}
-					// still held here: some receive on g comes after in2
+					// still held here: some receive on g comes after in2, or the slot is given
+					// back by a deferred call (held until the function returns)
 					held := false
+					eachInstr(fn, func(_ *ssa.BasicBlock, _ int, in3 ssa.Instruction) {
+						d, ok := in3.(*ssa.Defer)
+						if !ok {
+							return
+						}
+						var df *ssa.Function
+						if mc, ok := d.Call.Value.(*ssa.MakeClosure); ok {
+							df, _ = mc.Fn.(*ssa.Function)
+						} else {
+							df = d.Call.StaticCallee()
+						}
+						if df == nil {
+							return
+						}
+						eachInstr(df, func(_ *ssa.BasicBlock, _ int, in4 ssa.Instruction) {
+							if u, ok := in4.(*ssa.UnOp); ok && u.Op == token.ARROW && chanOf(u.X) == g {
+								held = true
+							}
+						})
+					})
 					eachInstr(fn, func(_ *ssa.BasicBlock, _ int, in3 ssa.Instruction) {
 						if u, ok := in3.(*ssa.UnOp); ok && u.Op == token.ARROW && chanOf(u.X) == g && (dominatesInstr(in2, in3) || blockReaches(in2.Block(), in3.Block())) {
 							held = true
